@@ -40,7 +40,11 @@ int fiber_spinlock_lock(fiber_spinlock_t* spinlock) {
   while (atomic_load_explicit(&spinlock->state.counters.ticket,
                               memory_order_acquire) != my_ticket) {
     cpu_relax();
-    fiber_manager_get()->spin_count += 1;
+    // a thread which is not managed by the fiber runtime has no manager
+    fiber_manager_t* const manager = fiber_manager_get();
+    if (manager) {
+      manager->spin_count += 1;
+    }
   }
 
   return FIBER_SUCCESS;
